@@ -23,7 +23,12 @@ SetToSortSeq(S) == IF S = {} THEN <<>> ELSE LET m == MinOf(S) IN <<m>> \o SetToS
 (* ----- manifests -------------------------------------------------------- *)
 
 \* abstract manifest of a chart: resource id -> [kind, f1, f2, pol]
-ChartMan(c) == ChartLib[c].res
+ChartMan(c) == LET rs == ChartLib[c].res IN
+               [r \in DOMAIN rs |-> [kind |-> rs[r].kind, f1 |-> rs[r].f1, f2 |-> rs[r].f2, pol |-> rs[r].pol, ver |-> rs[r].ver]]
+
+\* objectKey (pkg/action/upgrade.go) is apiVersion/kind/namespace/name: the same object rendered with another
+\* apiVersion counts as "to be created" and goes through the ownership check / adoption
+SameKey(m1, m2) == m1.kind = m2.kind /\ m1.ver = m2.ver
 
 \* hook definitions of a chart: hook id -> [kind, events (set), weight, pols (set)]
 ChartHooks(c) ==
